@@ -541,3 +541,12 @@ add('C09.shallow_load_inplace_fill', 'C09', [(CAL, "    self._model_qsvs = copy.
     (CAL, "      if tensor_name not in self._model_qsvs:\n        self._model_qsvs[tensor_name] = qsv\n      else:", "      if not self._model_qsvs.setdefault(tensor_name, {}):\n        self._model_qsvs[tensor_name].update(qsv)\n      else:")],
     'C09.R1', 'same two-site change seen from C09 (previous result modified)')
 add('C14.twin_shallow_load', 'C14', (CAL, "    self._model_qsvs = copy.deepcopy(model_qsvs)", "    self._model_qsvs = dict(model_qsvs)"), (), 'a shallow copy on load is enough as long as entries are replaced, never updated in place', kind='twin')
+add('C05.append_promotes', 'C05', (QTS, "    even_data = flattened_data[::2] & 0x0F\n    odd_data = np.left_shift(flattened_data[1::2], 4).astype(np.uint8)\n    if odd_data.shape[0] == even_data.shape[0] - 1:\n      odd_data = np.pad(odd_data, (0, 1), constant_values=0)\n    return np.bitwise_or(even_data, odd_data)",
+    "    if flattened_data.size % 2:\n      flattened_data = np.append(flattened_data, 0)\n    even_data = flattened_data[::2] & 0x0F\n    odd_data = (flattened_data[1::2] & 0x0F) << 4\n    return even_data | odd_data"),
+    'C05.R2', 'odd tail padded with np.append(data, 0): uint8 promoted to int64, flatbuffer stores 8 bytes per packed byte (seeded b4-C05)')
+add('C05.twin_pad_data', 'C05', (QTS, "    even_data = flattened_data[::2] & 0x0F\n    odd_data = np.left_shift(flattened_data[1::2], 4).astype(np.uint8)\n    if odd_data.shape[0] == even_data.shape[0] - 1:\n      odd_data = np.pad(odd_data, (0, 1), constant_values=0)\n    return np.bitwise_or(even_data, odd_data)",
+    "    if flattened_data.size % 2:\n      flattened_data = np.pad(flattened_data, (0, 1), constant_values=0)\n    even_data = flattened_data[::2] & 0x0F\n    odd_data = np.left_shift(flattened_data[1::2], 4).astype(np.uint8)\n    return np.bitwise_or(even_data, odd_data)"),
+    (), 'padding the data (dtype preserved) instead of the high-nibble array', kind='twin')
+add('C04.concat_overwrites_input_stats', 'C04', (MMU, "  op_tensor_params.append(output_tensor_params)\n\n  return op_tensor_params\n\n\ndef _materialize_standard_op_no_constraint(",
+    "  op_tensor_params.append(output_tensor_params)\n  output_tensor_qsv = tensor_name_to_qsv.get(output_tensor_params.tensor_name)\n  if output_tensor_qsv is not None:\n    for input_tensor in input_tensors:\n      tensor_name_to_qsv[tfl_flatbuffer_utils.get_tensor_name(input_tensor)] = (\n          output_tensor_qsv\n      )\n\n  return op_tensor_params\n\n\ndef _materialize_standard_op_no_constraint("),
+    'C04.R6', 'same-as-output helper also overwrites the statistics of the op INPUTS (seeded b4-C04)')
